@@ -1,11 +1,11 @@
 #!/bin/sh
 # Build the whole framework offline: translator -> Coq (.vo, full build) -> extraction -> runners.
 set -u
-cd /verif
-export PYTHONPATH=/repo PYTHONHASHSEED=0 PYTHONDONTWRITEBYTECODE=1
+cd "$(dirname "$0")"
+export NV_HERE=$(pwd) PYTHONPATH=${NOBODD_REPO:-/repo} PYTHONHASHSEED=0 PYTHONDONTWRITEBYTECODE=1
 /venv/bin/python - <<'PY'
 import sys, os
-sys.path.insert(0, '/verif/harness')
+sys.path.insert(0, os.environ['NV_HERE'] + '/harness')
 import lib, translate
 with lib.Lock():
     print('translate:', translate.run())
